@@ -34,8 +34,11 @@ RULE = ('cases: (a) bit patterns -- all 2**16 half patterns exhaustively in both
         'all-ones mantissas, largest finite, random) in eighths of an ulp incl. exact ties, nextafter neighbours of anchors and ties, both '
         'signs, plus random 52-bit doubles and doubles outside the single range -- compared with struct \'<f\'; (f) histories: a pool of 5 '
         'live FPNum objects (patterns of all formats, floats, raw tuples), 6..16 random operations add/sub/mul/div/compare/convert/to_float on '
-        'pool members (also the same object on both sides; a quarter of the results replace a pool member), after EVERY operation the result vs '
-        'Fractions and every pool object vs its snapshot (components, flags, rational, convert() bits).  evaluations = helper calls judged.  A case is non-trivial when it is not the '
+        'pool members (also the same object on both sides; exact zeros in half of the pools; a quarter of the results replace a pool member; '
+        'a third of the add/sub/mul results are rounded in place with reducePrecision / reducePrecisionWithRounding, the way the library\'s own '
+        'flow does), after EVERY operation: the result vs Fractions, the result is not one of the live objects, and every pool object vs its '
+        'snapshot (components, flags, rational, convert() bits).  A reduced pass of (c), (f) and half patterns runs in a child interpreter with '
+        'PYTHONOPTIMIZE=1 (asserts stripped).  evaluations = helper calls judged.  A case is non-trivial when it is not the '
         'all-zero pattern / value / operand pair; distinct by content (format, pattern | w, v | operand descriptors | format, x, y); in the thorough tier only the '
         'cases whose content hash is 0 mod 4 are registered, so distinct_nontrivial is a lower bound there (keeps the merged set small)')
 SHARDS = {'quick': 1, 'thorough': 16}
@@ -911,6 +914,7 @@ def judge_history(case):
                 return False
         return True
 
+    aliased = False
     for step, opd in enumerate(case['ops']):
         op, i, j = opd[0], opd[1], opd[2]
         A, B = objs[i], objs[j]
@@ -926,6 +930,22 @@ def judge_history(case):
                         out.append(V('fpnum_' + op, dict(function='FPNum.' + op, operands='history', relation='flagged_nonfinite' if got is None else relation(got, want)),
                                      str(want), str(got), 'history step %d: FPNum.%s(obj %d, obj %d): exact %s returned %s' % (step, op, i, j, want, got)))
                         break
+                    # the result must be a fresh object: the library's own flow rounds results in place
+                    # (r = a.add(b); r.reducePrecisionWithRounding(..)), which must never reach an operand
+                    n += 1
+                    alias = [k for k, o in enumerate(objs) if o is r]
+                    if alias:
+                        k = alias[0]
+                        role = 'self' if k == i else ('argument' if k == j else 'bystander')
+                        out.append(V('fpnum_result_identity', dict(function='FPNum.' + op, relation='result_is_the_%s_object' % role,
+                                                                   operands='one_zero' if (xa == 0) != (xb == 0) else ('both_zero' if xa == 0 else 'nonzero')),
+                                     'a new object', 'pool object %d' % k,
+                                     'history step %d: FPNum.%s(obj %d, obj %d) returned pool object %d itself (%s); values %s, %s' % (step, op, i, j, k, role, xa, xb)))
+                        aliased = True      # go on: if the history rounds this result, the purity pass shows the damage to the operand
+                    mut = opd[4] if len(opd) > 4 else None
+                    if mut:
+                        # a mutator applied to the RESULT; the purity pass below must find every pool object untouched
+                        getattr(r, mut[0])(mut[1])
                 elif op == 'div':
                     try:
                         A.div(B)          # quotients are not in the statement: only what div does to its operands is judged
@@ -956,10 +976,10 @@ def judge_history(case):
             out.append(V('fpnum_' + op, dict(function='FPNum.' + op, operands='history', relation='raises:' + type(e).__name__), None, repr(e)[:120],
                          'history step %d: FPNum.%s(obj %d, obj %d) raises %r' % (step, op, i, j, e)))
             break
-        if not purity(step, op, i, j):
+        if not purity(step, op, i, j) or aliased:
             break
         dest = opd[3] if op in ('add', 'sub', 'mul') and len(opd) > 3 else None
-        if dest is not None and r is not None:
+        if dest is not None and r is not None and not (len(opd) > 4 and opd[4]):
             # the result becomes a live object itself
             objs[dest], exp[dest], snaps[dest] = r, want, _snapshot(r)
             bits[dest] = _bits_for(['op'], want)
@@ -970,14 +990,18 @@ def history_cases(tier, seed, shard):
     rnd = rng(seed, 'C12', 'history', shard)
     ops_pool = arith_operands(tier, rnd)
     nz = [d for d in ops_pool if not desc_is_zero(d)]
+    zs = [d for d in ops_pool if desc_is_zero(d)]
     for _ in range(1500 if tier == 'quick' else 12000):
         pool = [rnd.choice(nz if rnd.random() < 0.9 else ops_pool) for _ in range(5)]
+        if rnd.random() < 0.5:
+            pool[rnd.randrange(5)] = rnd.choice(zs)          # an exact zero (either sign, any format) among the live objects
         ops = []
         for _ in range(rnd.randint(6, 16)):
             op = rnd.choice(('add', 'add', 'sub', 'sub', 'mul', 'div', 'compare', 'compare', 'convert', 'to_float'))
             i, j = rnd.randrange(5), rnd.randrange(5)
             if op in ('add', 'sub', 'mul'):
-                ops.append([op, i, j, rnd.randrange(5) if rnd.random() < 0.25 else None])
+                mut = [rnd.choice(('reducePrecision', 'reducePrecisionWithRounding')), rnd.choice((3, 10, 23, 52))] if rnd.random() < 0.3 else None
+                ops.append([op, i, j, None if mut else (rnd.randrange(5) if rnd.random() < 0.25 else None), mut])
             elif op == 'convert':
                 ops.append([op, i, i, rnd.choice(FMTS)])
             elif op == 'to_float':
@@ -1031,7 +1055,8 @@ def run_check(run, tier, seed, shard):
                'conversion of a value that the target format cannot hold exactly is counted as not_representable, not judged')
     run.assume('NaN: only "is a NaN" is compared (payloads excepted)')
     run.assume('operand purity: add/sub/mul/div/compare/convert/to_float must leave self, the argument and unrelated objects exactly as they were '
-               '(components(), flags, convert() bits); only reducePrecision* are mutators by contract and they are not called.  Quotients of div are not '
+               '(components(), flags, convert() bits); only reducePrecision* are mutators by contract; they are applied to RESULTS only, and a result must be a new object (not one of the operands)'
+               ' so that rounding it cannot reach an operand.  Quotients of div are not '
                'in the statement and not judged (exceptions from div are tolerated), only what div does to its operands')
     run.assume('Python floats that are not singles: FloatingPointHelper.sp_to_ieee754(_parts) documents "the IEEE 754 representation of v" and rounds, '
                'so it is compared with the platform (struct \'<f\', round to nearest even, overflow -> infinity); sp_to_ieee754_parts is judged by the '
